@@ -8,7 +8,9 @@ from ..cfg import CFG
 from ..kinds import has_call, reach
 from ..model import AnalysisError, unparse
 from ..report import RuleResult
+from ..roles import bound_from, calls, returned_names
 from ..tables import WriterTables
+from ._c01_paths import Paths, Sym, attr_name, default_of, kind_of, kw, make_call_eval, show_set, sources
 from .c06 import rule_own as _c06_own
 
 
@@ -25,7 +27,10 @@ def _init_params(K):
         out |= {x.arg for x in a.args[1:] + a.kwonlyargs}
         if a.kwarg is None or a.kwarg.arg == "_":
             break
-        forwards = any(isinstance(n, ast.Call) and unparse(n.func) == "super().__init__" and any(k.arg is None and unparse(k.value) == a.kwarg.arg for k in n.keywords)
+        # super().__init__(**kwargs) / super(K, self).__init__(**kwargs) / Base.__init__(self, **kwargs)
+        forwards = any(isinstance(n, ast.Call) and isinstance(n.func, ast.Attribute) and n.func.attr == "__init__"
+                       and (isinstance(n.func.value, ast.Call) and unparse(n.func.value.func) == "super" or isinstance(n.func.value, ast.Name) and n.func.value.id in {getattr(b, "name", b) for b in mro})
+                       and any(k.arg is None and unparse(k.value) == a.kwarg.arg for k in n.keywords)
                        for n in ast.walk(fn.node))
         if not forwards:
             break
@@ -83,22 +88,41 @@ def rule_schema(ctx) -> RuleResult:
     return res
 
 
-def _fetch_calls(fn):
-    """(kind, key) for lazy loads in a getter: fetch_array_attribute(self, key='cells'), fetch_metadata(uid, argument='Metadata'), fetch_values."""
+def _const(sym, e):
+    """Value of an expression that is a constant once aliases / temporaries are expanded, else None."""
+    if e is None:
+        return None
+    x = sym.X(e)
+    return x.value if isinstance(x, ast.Constant) else None
+
+
+def _fetch_calls(fn, ws_cls):
+    """(kind, key) for lazy loads in a getter (normalised view): <workspace>.fetch_array_attribute(self, key='cells'),
+    fetch_metadata(uid, argument='Metadata'), fetch_values; the receiver may be read into a local first."""
     out = []
+    S = Sym(fn.node)
     for c in ast.walk(fn.node):
-        if isinstance(c, ast.Call) and isinstance(c.func, ast.Attribute) and unparse(c.func.value).endswith("workspace"):
+        if isinstance(c, ast.Call) and isinstance(c.func, ast.Attribute) and S.text(c.func.value).endswith("workspace"):
+            target = ws_cls.methods.get(c.func.attr)
             if c.func.attr == "fetch_array_attribute":
-                key = c.args[1].value if len(c.args) > 1 and isinstance(c.args[1], ast.Constant) else next((k.value.value for k in c.keywords if k.arg == "key"), "cells")
-                out.append(("array", key, c))
+                key = _const(S, kw(c, "key", 1))
+                if key is None and kw(c, "key", 1) is None and target is not None:
+                    key = _const(S, default_of(target.node, "key"))
+                out.append(("array", key if key is not None else "cells", c))
             elif c.func.attr == "fetch_metadata":
-                arg = next((k.value.value for k in c.keywords if k.arg == "argument" and isinstance(k.value, ast.Constant)), None)
-                if arg is None and len(c.args) > 1 and isinstance(c.args[1], ast.Constant):
-                    arg = c.args[1].value
+                arg = _const(S, kw(c, "argument", 1))
+                if arg is None and kw(c, "argument", 1) is None and target is not None:
+                    arg = _const(S, default_of(target.node, "argument"))
                 out.append(("json", arg or "Metadata", c))
             elif c.func.attr == "fetch_values":
                 out.append(("values", "values", c))
     return out
+
+
+def _io_target(fn, reader_method):
+    """The `self._io_call(H5Reader.<reader_method>, ...)` calls of a Workspace method (normalised view)."""
+    S = Sym(fn.node)
+    return S, [c for c in ast.walk(fn.node) if isinstance(c, ast.Call) and attr_name(c) == "_io_call" and c.args and S.text(c.args[0]) == f"H5Reader.{reader_method}"]
 
 
 def rule_fetchkey(ctx) -> RuleResult:
@@ -112,27 +136,27 @@ def rule_fetchkey(ctx) -> RuleResult:
     p = ctx.p
     t = WriterTables(p)
     ent = p.cls("Entity")
+    wsc = p.cls("Workspace")
     seen = set()
     for K in p.subclasses(ent):
         for c in K.mro:
             if isinstance(c, str):
                 continue
             for name, pr in c.props.items():
-                if pr.getter is None or (pr.getter, ) in seen or K.lookup(name)[2] is not pr:
+                if pr.getter is None or pr.getter in seen or K.lookup(name)[2] is not pr:
                     continue
-                fc = _fetch_calls(pr.getter)
+                fc = _fetch_calls(ctx.view(pr.getter), wsc)
                 if not fc:
-                    continue
-                if pr.getter in seen:
                     continue
                 seen.add(pr.getter)
                 st = K.lookup(name)[2].setter
                 routes = set()
                 if st is not None:
-                    for n in ast.walk(st.node):
-                        if isinstance(n, ast.Call) and isinstance(n.func, ast.Attribute) and n.func.attr == "update_attribute" and len(n.args) > 1 and isinstance(n.args[1], ast.Constant):
-                            if unparse(n.args[0]) == "self":
-                                routes.add(n.args[1].value)
+                    sv = ctx.view(st)
+                    S = Sym(sv.node)
+                    for n in ast.walk(sv.node):
+                        if isinstance(n, ast.Call) and attr_name(n) == "update_attribute" and len(n.args) > 1 and S.text(n.args[0]) == "self" and isinstance(_const(S, n.args[1]), str):
+                            routes.add(_const(S, n.args[1]))
                 for kind, key, call in fc:
                     where = f"{pr.getter.module.relpath}:{call.lineno}"
                     if kind == "array":
@@ -149,11 +173,24 @@ def rule_fetchkey(ctx) -> RuleResult:
                         if not ok:
                             res.find(c.name, name, f"getter fetches {key!r}, writer stores under {want!r}", where,
                                      f"{c.name}.{name} is written to one dataset and read from another")
-    # container agreement: Workspace.fetch_metadata / fetch_array_attribute vs the writer's fetch_handle hierarchy
+    # container agreement: Workspace.fetch_metadata / fetch_array_attribute vs the writer's fetch_handle hierarchy.  The
+    # container is the value handed to the reader (wherever it is computed): the string constants it may come from, or the
+    # kind -> container table str_from_type.
+    flat = ("Data", "Groups", "Objects")
     fm = p.func("Workspace.fetch_metadata")
-    txt = unparse(fm.node)
-    kinds = {k for k in ("Data", "Groups", "Objects") if f"'{k}'" in txt}
-    via_table = "str_from_type" in txt
+    fmv = ctx.view(fm)
+    S, ios = _io_target(fmv, "fetch_metadata")
+    if not ios:
+        raise AnalysisError("Workspace.fetch_metadata: the call of H5Reader.fetch_metadata not found")
+    rd = p.cls("H5Reader").methods.get("fetch_metadata")
+    src = set()
+    for c in ios:
+        e = kw(c, "entity_type", 2)
+        if e is None and rd is not None:
+            e = default_of(rd.node, "entity_type")
+        src |= sources(e, fmv.node) if e is not None else set()
+    kinds = {k for k in flat if repr(k) in src}
+    via_table = "call:str_from_type" in src
     # Entity.metadata is settable on every entity kind
     data_settable = p.cls("Data", "data.data").lookup("metadata")[2].setter is not None
     ok = via_table or not data_settable or "Data" in kinds
@@ -163,8 +200,13 @@ def rule_fetchkey(ctx) -> RuleResult:
                  "Entity.metadata is assignable on Data; the writer stores it under Data/<uid>/Metadata, the reader looks under Objects: "
                  "metadata assigned to a data set is gone after re-opening")
     fa = p.func("Workspace.fetch_array_attribute")
-    txt = unparse(fa.node)
-    ok = "'Objects'" in txt and "'Groups'" in txt
+    fav = ctx.view(fa)
+    S, ios = _io_target(fav, "fetch_array_attribute")
+    src = set()
+    for c in ios:
+        e = kw(c, "entity_type", 2)
+        src |= sources(e, fav.node) if e is not None else set()
+    ok = bool(ios) and ("call:str_from_type" in src or repr("Objects") in src and repr("Groups") in src)
     res.inst("Workspace.fetch_array_attribute chooses Objects / Groups by entity kind", ok=ok)
     if not ok:
         res.find("Workspace", "fetch_array_attribute", "container selection changed", fa.where, "array attributes are read from the wrong flat container")
@@ -180,6 +222,36 @@ LAZY_EXCEPTIONS = {
 }
 
 
+def _private_refs(p) -> dict:
+    """private member name -> functions that mention `<something>._name` (call it or pass it on)."""
+    idx: dict = {}
+    for fn in p.all_functions():
+        for x in ast.walk(fn.node):
+            if isinstance(x, ast.Attribute) and x.attr.startswith("_") and not x.attr.startswith("__"):
+                idx.setdefault(x.attr, set()).add(fn)
+    return idx
+
+
+def _accessor_helpers(p, c, pr, refs) -> set:
+    """Private methods of c that are part of the accessor pair of a property: referred to by the getter / setter and by nothing
+    else in the project (a part of the getter moved into a helper is still the getter)."""
+    pair = {f for f in (pr.getter, pr.setter) if f is not None}
+    own: set = set()
+    changed = True
+    while changed:
+        changed = False
+        for name, fn in c.methods.items():
+            if fn in own or not name.startswith("_") or name.startswith("__") or fn.kind != "method":
+                continue
+            if any(sub.own(name) is not None for sub in p.subclasses(c, strict=True)):
+                continue
+            cs = refs.get(name, set()) - {fn}
+            if cs and cs <= (pair | own):
+                own.add(fn)
+                changed = True
+    return own
+
+
 def rule_lazy(ctx) -> RuleResult:
     res = RuleResult(
         "C01.LAZY",
@@ -190,6 +262,7 @@ def rule_lazy(ctx) -> RuleResult:
     )
     p = ctx.p
     ent = p.cls("Entity")
+    refs = _private_refs(p)
     done = set()
     for K in p.subclasses(ent):
         if K.synthetic:
@@ -203,18 +276,23 @@ def rule_lazy(ctx) -> RuleResult:
                 g = pr.getter
                 if g is None:
                     continue
-                for i in ast.walk(g.node):
-                    if isinstance(i, ast.If) and f"_{name}" in unparse(i.test) and "None" in unparse(i.test) and any(
-                        isinstance(x, ast.Call) and isinstance(x.func, ast.Attribute) and x.func.attr.startswith("fetch_") for s in i.body for x in ast.walk(s)
-                    ):
-                        lazy["_" + name] = pr
+                # lazily loaded: every path of the getter (helpers expanded) to a <...>.fetch_*() call implies `self._<name> is None`
+                # (nested if, guard clause returning the cached value, merged with other conditions: all the same fact)
+                gv = ctx.view(g).node
+                if not any(isinstance(x, ast.Call) and isinstance(x.func, ast.Attribute) and x.func.attr.startswith("fetch_") for x in ast.walk(gv)):
+                    continue
+                P = Paths(gv)
+                fetches = P.call_nodes(lambda x: isinstance(x.func, ast.Attribute) and x.func.attr.startswith("fetch_"))
+                if fetches and P.conj(f"self._{name} is None") <= P.necessary([P.g.entry], fetches):
+                    lazy["_" + name] = pr
             if not lazy:
                 continue
             members = list(c.methods.values()) + [f for pr in c.props.values() for f in (pr.getter, pr.setter) if f is not None and f.cls is c]
             for fld, pr in lazy.items():
                 res.inst(f"{c.name}.{pr.name}: lazily loaded into self.{fld}; direct readers are listed separately")
+                own = _accessor_helpers(p, c, pr, refs)
                 for fn in members:
-                    if fn in (pr.getter, pr.setter) or fn.name == "__init__":
+                    if fn in (pr.getter, pr.setter) or fn.name == "__init__" or fn in own:
                         continue
                     reads = [n for n in ast.walk(fn.node) if isinstance(n, ast.Attribute) and n.attr == fld and isinstance(n.ctx, ast.Load) and unparse(n.value) == "self"]
                     # `if self._x is None` tests and `self._x is not None` guards before a store are reads too, but a pure
@@ -268,19 +346,23 @@ def rule_pgw(ctx) -> RuleResult:
             res.notes.append(f"PropertyGroup.{name}: set-once setter, not assignable on a stored group")
             res.inst(f"PropertyGroup.{name}: set-once setter (no obligation)")
             continue
-        g = CFG(fn.node)
+        # normalised body: a private helper that stores / persists is part of the setter; a list mutated through a local alias
+        # (`props = self._properties; props.remove(x)`) is a store of the field
+        node = ctx.view(fn).node
+        g = CFG(node)
+        S = Sym(node)
 
-        def stores(n, fields=fields):
+        def stores(n, fields=fields, S=S):
             if n.ast is None or isinstance(n.ast, list):
                 return False
             for x in ast.walk(n.ast):
                 if isinstance(x, ast.Attribute) and x.attr in fields and unparse(x.value) == "self" and isinstance(x.ctx, ast.Store):
                     return True
-                if isinstance(x, ast.Call) and isinstance(x.func, ast.Attribute) and x.func.attr in ("remove", "append", "extend", "pop", "clear") and unparse(x.func.value) in {f"self.{f}" for f in fields}:
+                if isinstance(x, ast.Call) and isinstance(x.func, ast.Attribute) and x.func.attr in ("remove", "append", "extend", "pop", "clear", "insert") and S.text(x.func.value) in {f"self.{f}" for f in fields}:
                     return True
             return False
 
-        persist = lambda n: has_call(n, lambda c: isinstance(c.func, ast.Attribute) and c.func.attr in ("add_or_update_property_group", "remove_entity") and c.args and unparse(c.args[0]) == "self")  # noqa: E731
+        persist = lambda n, S=S: has_call(n, lambda c: isinstance(c.func, ast.Attribute) and c.func.attr in ("add_or_update_property_group", "remove_entity") and c.args and S.text(c.args[0]) == "self")  # noqa: E731
         s_nodes = [n for n in g.nodes if stores(n)]
         bad = [n for n in s_nodes if g.exit in reach(g, [m for m, _ in n.succ], avoid=persist) and not persist(n)]
         # the property list may be built in a local and assigned once: `properties = self._properties or []` ... `self._properties = properties`
@@ -299,26 +381,78 @@ def rule_own(ctx) -> RuleResult:
 RULES = [rule_schema, rule_fetchkey, rule_lazy, rule_pgw, rule_own]
 
 
-def _must_call(fn, pred, starts=None, var=None, facts=None):
-    """Every normal path of fn (from `starts` or the entry) passes a node satisfying pred."""
-    g = CFG(fn.node)
-    st = starts(g) if starts else [g.entry]
-    return g.exit not in reach(g, st, var, facts or {}, avoid=lambda n: has_call(n, pred)), g
-
-
-def _fold_str(expr, value):
-    """Evaluate a chain of str methods (replace / lower / capitalize / upper) applied to a name, for a constant value."""
+def _fold_str(expr, value, var=None):
+    """Evaluate a chain of str methods (replace / lower / capitalize / upper) applied to the name `var`, for a constant value."""
     if isinstance(expr, ast.Name):
-        return value
+        return value if var is None or expr.id == var else None
     if isinstance(expr, ast.Call) and isinstance(expr.func, ast.Attribute):
-        base = _fold_str(expr.func.value, value)
+        base = _fold_str(expr.func.value, value, var)
         if base is None:
             return None
         args = [a.value for a in expr.args if isinstance(a, ast.Constant)]
-        if len(args) != len(expr.args):
+        if len(args) != len(expr.args) or expr.keywords:
             return None
         if expr.func.attr in ("replace", "lower", "upper", "capitalize", "strip"):
             return getattr(base, expr.func.attr)(*args)
+    return None
+
+
+def _is_true(e):
+    return isinstance(e, ast.Constant) and e.value is True
+
+
+def _is_false(e):
+    return isinstance(e, ast.Constant) and e.value is False
+
+
+def _self_store(st, field=None):
+    """statement stores (assigns / deletes) an attribute of self (the given one, or any)."""
+    tgs = st.targets if isinstance(st, (ast.Assign, ast.Delete)) else [st.target] if isinstance(st, (ast.AnnAssign, ast.AugAssign)) else []
+    return any(isinstance(t, ast.Attribute) and isinstance(t.value, ast.Name) and t.value.id == "self" and (field is None or t.attr == field)
+               for tg in tgs for t in ast.walk(tg))
+
+
+def _rename_word(text, old, new):
+    import re
+
+    return re.sub(rf"\b{re.escape(old)}\b", new, text)
+
+
+def _loops(node):
+    return [x for x in ast.walk(node) if isinstance(x, ast.For)]
+
+
+def _unpacked(call):
+    """Expressions unpacked into the keyword arguments of a call: f(**a, **{**b, **c}) -> [a, b, c]."""
+    out = []
+
+    def add(v):
+        if isinstance(v, ast.Dict) and all(k is None for k in v.keys):
+            for x in v.values:
+                add(x)
+        else:
+            out.append(v)
+
+    for k in call.keywords:
+        if k.arg is None:
+            add(k.value)
+    return out
+
+
+def _pairs_loop(P, loop):
+    """A loop over the (key, value) pairs of a mapping, however it is spelled: `for k, v in M.items()`, or `for k in M` /
+    `for k in M.keys()` with the value read as `M[k]`.  Returns (key local, locals holding the value, text of `M[<key>]`), else None.
+    A loop over a literal sequence is not one (it does not follow what the mapping holds)."""
+    src = P.loop_source(loop)[0]
+    t = loop.target
+    if isinstance(src, ast.Call) and attr_name(src) == "items" and isinstance(src.func, ast.Attribute) and not src.args \
+            and isinstance(t, ast.Tuple) and len(t.elts) == 2 and all(isinstance(e, ast.Name) for e in t.elts):
+        return t.elts[0].id, {t.elts[1].id}, f"{unparse(src.func.value)}[{t.elts[0].id}]"
+    if isinstance(t, ast.Name):
+        base = src.func.value if isinstance(src, ast.Call) and attr_name(src) == "keys" and isinstance(src.func, ast.Attribute) and not src.args else src
+        if isinstance(base, (ast.Name, ast.Attribute, ast.Subscript)):
+            look = f"{unparse(base)}[{t.id}]"
+            return t.id, set(bound_from(loop, lambda e: P.text(e) == look)), look
     return None
 
 
@@ -342,138 +476,251 @@ def rule_flow(ctx) -> RuleResult:
         if not ok:
             res.find(cls, member, construct, where, msg)
 
+    def anchor(cls, name):
+        if name not in cls.methods:
+            raise AnalysisError(f"anchor {cls.name}.{name} not found")
+        return cls.methods[name], ctx.view(cls.methods[name])
+
+    # Every site below is found by what it does (the call it makes, the field it stores) in the normalised body (private helpers
+    # expanded, hoisted tables substituted); locals are named by role; conditions are compared as sets of necessary
+    # conjuncts on the CFG plus a must-pass check (sa/rules/_c01_paths.py), never as the text of one `if`.
+
     # --- save side
-    ce = ws.methods["create_entity"]
-    from ..roles import canon, returned_names
+    ce0, ce = anchor(ws, "create_entity")
     # roles: the created entity = the local the function returns; the save switch = its `save_on_creation` parameter
-    created = {nm: "CREATED" for nm in returned_names(ce.node)}
-    saves = [i for i in ast.walk(ce.node) if isinstance(i, ast.If) and "save_on_creation" in unparse(i.test)]
-    ok = bool(saves) and all(any("self.save_entity(CREATED" in canon(s, created) for s in i.body) for i in saves)
-    conj = {canon(v, created) for v in saves[0].test.values} if saves and isinstance(saves[0].test, ast.BoolOp) else set()
-    ok = ok and conj == {"CREATED is not None", "save_on_creation", "self.h5file is not None"}
-    chk(ok, f"create_entity saves the created entity under {sorted(conj)}", "Workspace", "create_entity", "creation does not save the entity (or only conditionally)", ce.where,
+    P = Paths(ce.node, {nm: "R_created" for nm in returned_names(ce.node)})
+    saves = P.call_nodes(lambda c: attr_name(c) == "save_entity" and c.args and P.text(c.args[0]) == "R_created")
+    want = P.conj("R_created is not None and save_on_creation and self.h5file is not None")
+    nec = P.necessary([P.g.entry], saves) if saves else frozenset()
+    ok = bool(saves) and nec == want and P.must([P.g.entry], saves, want)
+    chk(ok, f"create_entity saves the created entity exactly under {show_set(nec)}", "Workspace", "create_entity", "creation does not save the entity (or only conditionally)", ce0.where,
         "a created entity is not written to the file at creation: it exists in memory only until something else saves it")
-    se = ws.methods["save_entity"]
-    ok = any(isinstance(c, ast.Call) and unparse(c.func) == "self._io_call" and c.args and unparse(c.args[0]) == "H5Writer.save_entity" and unparse(c.args[1]) == se.params[1]
-             and any(k.arg == "add_children" and unparse(k.value) == se.params[2] for k in c.keywords) for c in ast.walk(se.node))
-    chk(ok, "Workspace.save_entity forwards (entity, add_children) to H5Writer.save_entity", "Workspace", "save_entity", "does not forward to H5Writer.save_entity", se.where,
+
+    se0, se = anchor(ws, "save_entity")
+    P = Paths(se.node)
+    ok = any(isinstance(c, ast.Call) and attr_name(c) == "_io_call" and len(c.args) > 1 and P.text(c.args[0]) == "H5Writer.save_entity" and P.text(c.args[1]) == se0.params[1]
+             and kw(c, "add_children", 3) is not None and P.text(kw(c, "add_children", 3)) == se0.params[2] for c in ast.walk(se.node))
+    chk(ok, "Workspace.save_entity forwards (entity, add_children) to H5Writer.save_entity", "Workspace", "save_entity", "does not forward to H5Writer.save_entity", se0.where,
         "saving an entity does not reach the writer")
-    hs = W.methods["save_entity"]
-    hent = hs.params[2]
-    ok1, _ = _must_call(hs, lambda c: unparse(c.func).endswith("write_entity") and len(c.args) > 1 and unparse(c.args[1]) == hent)
-    ok2, _ = _must_call(hs, lambda c: unparse(c.func).endswith("write_to_parent") and len(c.args) > 1 and unparse(c.args[1]) == hent)
-    chk(ok1 and ok2, "H5Writer.save_entity: write_entity(entity) and write_to_parent(entity) on every path", "H5Writer", "save_entity", "a path skips write_entity / write_to_parent", hs.where,
+
+    hs0, hs = anchor(W, "save_entity")
+    hent = hs0.params[2]
+    addp = hs0.params[4] if len(hs0.params) > 4 else "add_children"
+    P = Paths(hs.node, {hent: "R_ent"})
+    n1 = P.call_nodes(lambda c: attr_name(c) == "write_entity" and len(c.args) > 1 and P.text(c.args[1]) == "R_ent")
+    n2 = P.call_nodes(lambda c: attr_name(c) == "write_to_parent" and len(c.args) > 1 and P.text(c.args[1]) == "R_ent")
+    ok = bool(n1) and bool(n2) and P.must([P.g.entry], n1) and P.must([P.g.entry], n2)
+    chk(ok, "H5Writer.save_entity: write_entity(entity) and write_to_parent(entity) on every path", "H5Writer", "save_entity", "a path skips write_entity / write_to_parent", hs0.where,
         "a saved entity is not stored or not linked under its parent")
-    loops = [lp for lp in ast.walk(hs.node) if isinstance(lp, ast.For) and unparse(lp.iter) == f"{hent}.children"]
-    ok = bool(loops) and any(isinstance(c, ast.Call) and unparse(c.func).endswith("save_entity") and len(c.args) > 1 and unparse(c.args[1]) == unparse(lp.target)
-                             for lp in loops for c in ast.walk(lp))
-    guard = next((i for i in ast.walk(hs.node) if isinstance(i, ast.If) and loops and any(lp in i.body for lp in loops)), None)
-    gconj = {unparse(v) for v in guard.test.values} if guard is not None and isinstance(guard.test, ast.BoolOp) else set()
-    ok = ok and gconj == {hs.params[4] if len(hs.params) > 4 else "add_children", f"not isinstance({hent}, Concatenator)", f"hasattr({hent}, 'children')"}
-    inner = [unparse(i.test) for lp in loops for i in lp.body if isinstance(i, ast.If)]
-    ok = ok and inner == [f"not isinstance({unparse(loops[0].target)}, PropertyGroup)"] if loops else False
-    chk(ok, f"H5Writer.save_entity saves every non-property-group child under {sorted(gconj)}", "H5Writer", "save_entity", "children are not all saved", hs.where,
+    loops = [lp for lp in _loops(hs.node) if isinstance(lp.target, ast.Name) and P.iter_text(lp) == "R_ent.children"]
+    ok, nec = False, frozenset()
+    if loops:
+        P = Paths(hs.node, {hent: "R_ent", **{lp.target.id: "R_child" for lp in loops}})
+        want = P.conj(f"{addp} and not isinstance(R_ent, Concatenator) and hasattr(R_ent, 'children') and not isinstance(R_child, PropertyGroup)")
+        for lp in loops:
+            tg = P.call_nodes(lambda c: attr_name(c) == "save_entity" and len(c.args) > 1 and P.text(c.args[1]) == "R_child", within=lp)
+            if not tg:
+                continue
+            head, nxt, body = P.loop_nodes(lp)
+            nec = P.necessary([P.g.entry], tg)
+            ok = nec == want and P.must([P.g.entry], [head], want) and P.must(body, tg, want, fail=[nxt])
+    chk(ok, f"H5Writer.save_entity saves every child exactly under {show_set(nec)}", "H5Writer", "save_entity", "children are not all saved", hs0.where,
         "children of a saved entity (close() saves the root with add_children) are skipped: they never reach the file")
-    wp = W.methods["write_properties"]
-    ok = any(isinstance(c, ast.Call) and unparse(c.func).endswith("update_field") and len(c.args) > 2 and unparse(c.args[2]) == "'attributes'" for c in ast.walk(wp.node))
-    lp = next((x for x in ast.walk(wp.node) if isinstance(x, ast.For) and unparse(x.iter) == "KEY_MAP"), None)
-    ok = ok and lp is not None and any(isinstance(i, ast.If) and unparse(i.test) == f"getattr(entity, {unparse(lp.target)}, None) is not None"
-                                       and any("update_field" in unparse(s) and unparse(lp.target) in unparse(s) for s in i.body) for i in lp.body)
-    chk(ok, "write_properties: 'attributes' then every KEY_MAP attribute that is not None", "H5Writer", "write_properties", "not every set attribute is written at creation", wp.where,
+
+    wp0, wp = anchor(W, "write_properties")
+    went = wp0.params[2]
+    P = Paths(wp.node, {went: "R_ent"})
+    first = P.call_nodes(lambda c: attr_name(c) == "update_field" and len(c.args) > 2 and P.text(c.args[1]) == "R_ent" and P.text(c.args[2]) == "'attributes'")
+    ok = bool(first) and P.must([P.g.entry], first)
+    ok2 = False
+    for lp in _loops(wp.node):
+        it = P.iter_text(lp)
+        var = lp.target.id if isinstance(lp.target, ast.Name) and it in ("KEY_MAP", "KEY_MAP.keys()", "list(KEY_MAP)", "sorted(KEY_MAP)") else \
+            lp.target.elts[0].id if it == "KEY_MAP.items()" and isinstance(lp.target, ast.Tuple) and isinstance(lp.target.elts[0], ast.Name) else None
+        if var is None:
+            continue
+        Q = Paths(wp.node, {went: "R_ent", var: "R_attr"})
+        tg = Q.call_nodes(lambda c: attr_name(c) == "update_field" and len(c.args) > 2 and Q.text(c.args[1]) == "R_ent" and Q.text(c.args[2]) == "R_attr", within=lp)
+        if not tg:
+            continue
+        head, nxt, body = Q.loop_nodes(lp)
+        want = Q.conj("getattr(R_ent, R_attr, None) is not None")
+        ok2 = Q.necessary(body, tg) == want and Q.must(body, tg, want, fail=[nxt]) and Q.must([Q.g.entry], [head])
+    chk(ok and ok2, "write_properties: 'attributes' then every KEY_MAP attribute that is not None", "H5Writer", "write_properties", "not every set attribute is written at creation", wp0.where,
         "a new entity is stored without some of its datasets / attributes")
-    cl = ws.methods["close"]
-    ok = any(isinstance(c, ast.Call) and unparse(c.func) == "self._io_call" and c.args and unparse(c.args[0]) == "H5Writer.save_entity" and unparse(c.args[1]) == "self.root"
-             and any(k.arg == "add_children" and unparse(k.value) == "True" for k in c.keywords) for c in ast.walk(cl.node))
-    chk(ok, "close(): _io_call(H5Writer.save_entity, self.root, add_children=True)", "Workspace", "close", "final save of the root subtree changed", cl.where,
+
+    cl0, cl = anchor(ws, "close")
+    P = Paths(cl.node)
+    dflt = default_of(hs0.node, addp)
+
+    def final_save(c):
+        if not (attr_name(c) == "_io_call" and len(c.args) > 1 and P.text(c.args[0]) == "H5Writer.save_entity" and P.text(c.args[1]) in ("self.root", "self._root")):
+            return False
+        v = kw(c, addp, 3)
+        return _is_true(P.X(v)) if v is not None else _is_true(dflt)
+
+    ok = any(isinstance(c, ast.Call) and final_save(c) for c in ast.walk(cl.node))
+    chk(ok, "close(): _io_call(H5Writer.save_entity, self.root, add_children=True)", "Workspace", "close", "final save of the root subtree changed", cl0.where,
         "entities created with save_on_creation=False or moved under a new parent are not written at close")
-    reg = ws.methods["register"]
-    pgb = next((i for i in ast.walk(reg.node) if isinstance(i, ast.If) and unparse(i.test) == f"isinstance({reg.params[1]}, PropertyGroup)"), None)
-    ok = False
-    if pgb is not None:
-        for i in [x for x in pgb.body if isinstance(x, ast.If)]:
-            if any("add_or_update_property_group" in unparse(s_) for s_ in i.body):
-                ok = unparse(i.test) == f"not {reg.params[1]}.on_file"
-    chk(ok, "register: a property group that is not on file is written (condition exactly `not entity.on_file`)", "Workspace", "register",
-        "a new property group is written only under an extra condition", reg.where,
+
+    reg0, reg = anchor(ws, "register")
+    rent = reg0.params[1]
+    # the branch taken by a PropertyGroup: decided by the class hierarchy (elif chain, dict / tuple table with a lookup helper, ...)
+    P = Paths(reg.node, {rent: "R_ent"}, kinds={"R_ent": kind_of(p, p.cls("PropertyGroup"))}, call_eval=make_call_eval(ctx, reg0))
+    tg = P.call_nodes(lambda c: attr_name(c) == "add_or_update_property_group" and c.args and P.text(c.args[0]) == "R_ent"
+                      and not (kw(c, "remove", 1) is not None and not _is_false(P.X(kw(c, "remove", 1)))))
+    want = P.conj("not R_ent.on_file")
+    nec = P.necessary([P.g.entry], tg) if tg else frozenset()
+    ok = bool(tg) and nec == want and P.must([P.g.entry], tg, want)
+    chk(ok, f"register: a property group is written exactly under {show_set(nec)}", "Workspace", "register",
+        "a new property group is written only under an extra condition", reg0.where,
         "register is the only place a new property group reaches the file: some groups (e.g. still empty ones) exist live and are gone after re-opening")
+
     # --- load side
-    init = ws.methods["__init__"]
-    last = init.node.body[-1]
-    ok = isinstance(last, ast.Expr) and unparse(last.value) == "self.open()"
-    chk(ok, "Workspace.__init__ ends with self.open()", "Workspace", "__init__", "constructor does not open the file", init.where, "a new Workspace object shows an empty tree", False)
-    op = ws.methods["open"]
-    ok, g = _must_call(op, lambda c: unparse(c.func) == "self.fetch_or_create_root",
-                       starts=lambda g: [m for n in g.nodes if n.kind == "test" and "already" not in unparse(n.ast) and "isinstance(self._geoh5, h5py.File)" in unparse(n.ast) for m, l in n.succ if l == "false"] or [g.entry])
-    chk(ok, "open(): every path that opens the file calls fetch_or_create_root()", "Workspace", "open", "a path opens the file without loading the tree", op.where,
+    init0, init = anchor(ws, "__init__")
+    op0, op = anchor(ws, "open")
+    P = Paths(init.node)
+    opens = P.call_nodes(lambda c: P.text(c.func) == "self.open")
+    ok = bool(opens) and P.must([P.g.entry], opens)
+    # nothing is (re)set after the tree was loaded
+    later = P._reach(P.after(opens), set()) if opens else set()
+    ok = ok and not any(n.kind == "stmt" and _self_store(n.ast) for n in later)
+    # the mode: open() without a mode falls back to the one given to the constructor
+    mode_p = op0.params[1] if len(op0.params) > 1 else "mode"
+    given = [nm for nm in init0.params[1:] if any(isinstance(s, (ast.Assign, ast.AnnAssign)) and _self_store(s, "_mode") and s.value is not None and P.text(s.value) == nm for s in ast.walk(init.node))]
+    keeps_mode = bool(given)
+    for n in opens:
+        for c in [c for e in P.exprs(n) for c in ast.walk(e) if isinstance(c, ast.Call) and P.text(c.func) == "self.open"]:
+            v = kw(c, mode_p, 0)
+            ok = ok and (v is None and not c.args and not c.keywords or v is not None and (P.text(v) == "None" or keeps_mode and P.text(v) in (*given, "self._mode")))
+    Q = Paths(op.node)
+    files = [c for c in ast.walk(op.node) if isinstance(c, ast.Call) and Q.text(c.func) == "h5py.File"]
+    ok = ok and keeps_mode and any("self._mode" in sources(kw(c, "mode", 1), op.node) for c in files if kw(c, "mode", 1) is not None)
+    chk(ok, "Workspace.__init__ keeps its mode and ends by self.open(), which falls back to that mode", "Workspace", "__init__", "constructor does not open the file", init0.where,
+        "a new Workspace object shows an empty tree", False)
+
+    stores = Q.stmt_nodes(lambda s: _self_store(s, "_geoh5") and not isinstance(s, ast.Delete)) or Q.call_nodes(lambda c: Q.text(c.func) == "h5py.File")
+    if not stores:
+        raise AnalysisError("Workspace.open: the statement that opens the file (self._geoh5 = ... / h5py.File(...)) not found")
+    loads = Q.call_nodes(lambda c: Q.text(c.func) == "self.fetch_or_create_root")
+    ok = bool(loads) and Q.must(Q.after(stores), loads)
+    chk(ok, "open(): every path that opens the file calls fetch_or_create_root()", "Workspace", "open", "a path opens the file without loading the tree", op0.where,
         "after re-opening, the workspace lists no entities")
-    fr = ws.methods["fetch_or_create_root"]
-    ok = any(isinstance(c, ast.Call) and unparse(c.func) == "self.fetch_children" and unparse(c.args[0]) == "self._root" and any(k.arg == "recursively" and unparse(k.value) == "True" for k in c.keywords)
-             for c in ast.walk(fr.node))
-    chk(ok, "fetch_or_create_root: fetch_children(self._root, recursively=True)", "Workspace", "fetch_or_create_root", "the tree is not loaded recursively from Root", fr.where,
+
+    fr0, fr = anchor(ws, "fetch_or_create_root")
+    fc0, fc = anchor(ws, "fetch_children")
+    ent_p, rec_p = fc0.params[1], fc0.params[2]
+    # role: the root entity = what load_entity(<uid>, "root") returned
+    is_root_load = lambda e: any(isinstance(c, ast.Call) and attr_name(c) == "load_entity" and any(isinstance(a, ast.Constant) and a.value == "root" for a in c.args + [k.value for k in c.keywords])
+                                 for c in ast.walk(e))  # noqa: E731
+    P = Paths(fr.node, {nm: "R_loaded" for nm in bound_from(fr.node, is_root_load)})
+    becomes_root = any(isinstance(s, (ast.Assign, ast.AnnAssign)) and _self_store(s, "_root") and s.value is not None and P.text(s.value) == "R_loaded" for s in ast.walk(fr.node))
+    ok = any(isinstance(c, ast.Call) and P.text(c.func) == "self.fetch_children" and c.args and (P.text(c.args[0]) == "self._root" or becomes_root and P.text(c.args[0]) == "R_loaded")
+             and kw(c, rec_p, 1) is not None and _is_true(P.X(kw(c, rec_p, 1))) for c in ast.walk(fr.node))
+    chk(ok, "fetch_or_create_root: fetch_children(self._root, recursively=True)", "Workspace", "fetch_or_create_root", "the tree is not loaded recursively from Root", fr0.where,
         "only the first level (or nothing) is loaded on open")
-    fc = ws.methods["fetch_children"]
-    ent_p, rec_p = fc.params[1], fc.params[2]
-    loop = next((x for x in ast.walk(fc.node) if isinstance(x, ast.For) and isinstance(x.target, ast.Tuple) and isinstance(x.iter, ast.Call)
-                 and isinstance(x.iter.func, ast.Attribute) and x.iter.func.attr == "items" and any("load_entity" in unparse(s_) for s_ in x.body)), None)
+
+    P = Paths(fc.node)
+    loop = next((x for x in _loops(fc.node) if _pairs_loop(P, x) is not None and any(calls(s_, "load_entity") for s_ in x.body)), None)
     if loop is None:
         raise AnalysisError("Workspace.fetch_children: loop over the listed children not found")
-    uid_v, type_v = [unparse(e) for e in loop.target.elts]
-    loads = [c for c in ast.walk(loop) if isinstance(c, ast.Call) and unparse(c.func) == "self.load_entity"]
-    ok = bool(loads) and all([unparse(a) for a in c.args[:2]] == [uid_v, type_v] and any(k.arg == "parent" and unparse(k.value) == ent_p for k in c.keywords) for c in loads)
-    chk(ok, "fetch_children: load_entity(<uid>, <child type>, parent=<entity>) for every listed child", "Workspace", "fetch_children", "children are not loaded with their parent", fc.where,
+    # roles: the uid / type of the listed child; the recovered entity = what get_entity / load_entity returned inside the loop
+    key, vals, look = _pairs_loop(P, loop)
+    roles = {ent_p: "R_ent", **{v: "R_type" for v in vals}, key: "R_uid"}
+    look = _rename_word(look, key, "R_uid")
+    roles.update({nm: "R_rec" for nm in bound_from(loop, lambda e: calls(e, "load_entity", "get_entity"))})
+    P = Paths(fc.node, roles)
+    head, nxt, body = P.loop_nodes(loop)
+    loads = [c for c in ast.walk(loop) if isinstance(c, ast.Call) and P.text(c.func) == "self.load_entity"]
+    ok = bool(loads) and all(len(c.args) > 1 and P.text(c.args[0]) == "R_uid" and P.text(c.args[1]) in ("R_type", look) and kw(c, "parent", 2) is not None and P.text(kw(c, "parent", 2)) == "R_ent" for c in loads)
+    chk(ok, "fetch_children: load_entity(<uid>, <child type>, parent=<entity>) for every listed child", "Workspace", "fetch_children", "children are not loaded with their parent", fc0.where,
         "children listed in the file are not re-created under their parent")
-    rec_var = None
-    for a in ast.walk(loop):
-        if isinstance(a, ast.Assign) and any(c in list(ast.walk(a.value)) for c in loads) and isinstance(a.targets[0], ast.Name):
-            rec_var = a.targets[0].id
-    rec = [i for i in ast.walk(loop) if isinstance(i, ast.If) and any(isinstance(n, ast.Name) and n.id == rec_p for n in ast.walk(i.test))]
-    ok = False
-    if rec and rec_var:
-        t = rec[0].test
-        conj = {unparse(v) for v in t.values} if isinstance(t, ast.BoolOp) and isinstance(t.op, ast.And) else {unparse(t)}
-        ok = conj == {rec_p, f"isinstance({rec_var}, (Group, ObjectBase))"} or conj == {rec_p, f"isinstance({rec_var}, (ObjectBase, Group))"}
-        ok = ok and any(isinstance(c, ast.Call) and unparse(c.func) == "self.fetch_children" and c.args and unparse(c.args[0]) == rec_var
-                        and any(k.arg == rec_p and unparse(k.value) == "True" for k in c.keywords) for s_ in rec[0].body for c in ast.walk(s_))
-    chk(ok, "fetch_children recurses into groups AND objects", "Workspace", "fetch_children", "recursion does not cover groups and objects", fc.where,
+    usable = P.conj("R_rec is not None and not isinstance(R_rec, PropertyGroup)")
+    want = P.conj(f"{rec_p} and isinstance(R_rec, (Group, ObjectBase))")
+    tg = P.call_nodes(lambda c: P.text(c.func) == "self.fetch_children" and c.args and P.text(c.args[0]) == "R_rec" and kw(c, rec_p, 1) is not None and _is_true(P.X(kw(c, rec_p, 1))), within=loop)
+    nec = P.necessary(body, tg) if tg else frozenset()
+    ok = bool(tg) and nec - usable == want and P.must(body, tg, usable | want, fail=[nxt])
+    chk(ok, f"fetch_children recurses into groups AND objects (exactly under {show_set(nec - usable)})", "Workspace", "fetch_children", "recursion does not cover groups and objects", fc0.where,
         "data of objects (or nested groups) are not loaded on open")
-    ok = rec_var is not None and any(isinstance(a, ast.Assign) and unparse(a.targets[0]) == f"{rec_var}.on_file" and unparse(a.value) == "True" for a in ast.walk(loop))
-    chk(ok, "fetch_children marks recovered entities on_file", "Workspace", "fetch_children", "recovered entities are not marked on_file", fc.where,
+    marks = P.stmt_nodes(lambda s: isinstance(s, ast.Assign) and P.text(s.targets[0]) == "R_rec.on_file" and _is_true(P.X(s.value)), within=loop)
+    ok = bool(marks) and P.necessary(body, marks) <= usable and P.must(body, marks, usable, fail=[nxt])
+    chk(ok, "fetch_children marks recovered entities on_file", "Workspace", "fetch_children", "recovered entities are not marked on_file", fc0.where,
         "setters on re-opened entities skip persistence (on_file False)")
-    le = ws.methods["load_entity"]
-    from ..roles import bound_from, calls
-    # roles in load_entity: ATTRS = what fetch_attributes returned, ENT = what create_entity returned
-    lmap = {nm: "ATTRS" for nm in bound_from(le.node, lambda e: "fetch_attributes" in unparse(e))}
-    lmap.update({nm: "ENT" for nm in bound_from(le.node, lambda e: calls(e, "create_entity"))})
-    ok = any(isinstance(c, ast.Call) and unparse(c.func) == "self.create_entity" and any(k.arg == "save_on_creation" and unparse(k.value) == "False" for k in c.keywords)
-             and any(k.arg is None and "ATTRS[0]" in canon(k.value, lmap) and "ATTRS[1]" in canon(k.value, lmap) for k in c.keywords) for c in ast.walk(le.node))
-    chk(ok, "load_entity: create_entity(<kind>, save_on_creation=False, **entity attrs, **type attrs)", "Workspace", "load_entity", "entity not rebuilt from both attribute sets", le.where,
+
+    le0, le = anchor(ws, "load_entity")
+    # roles in load_entity: R_attrs = what fetch_attributes returned (also unpacked into three locals), R_ent = what create_entity returned
+    roles = {nm: "R_attrs" for nm in bound_from(le.node, lambda e: "fetch_attributes" in unparse(e))}
+    for a in ast.walk(le.node):
+        if isinstance(a, ast.Assign) and isinstance(a.targets[0], ast.Tuple) and isinstance(a.value, ast.Name) and a.value.id in roles and all(isinstance(e, ast.Name) for e in a.targets[0].elts):
+            roles.update({e.id: f"R_attrs[{i}]" for i, e in enumerate(a.targets[0].elts)})
+    roles.update({nm: "R_ent" for nm in bound_from(le.node, lambda e: calls(e, "create_entity"))})
+    P = Paths(le.node, roles)
+    creates = [c for c in ast.walk(le.node) if isinstance(c, ast.Call) and P.text(c.func) == "self.create_entity"]
+    ok = any(kw(c, "save_on_creation", 1) is not None and _is_false(P.X(kw(c, "save_on_creation", 1))) and {"R_attrs[0]", "R_attrs[1]"} <= {P.text(u) for u in _unpacked(c)} for c in creates)
+    chk(ok, "load_entity: create_entity(<kind>, save_on_creation=False, **entity attrs, **type attrs)", "Workspace", "load_entity", "entity not rebuilt from both attribute sets", le0.where,
         "loaded entities lose their attributes or their type")
-    pg = [i for i in ast.walk(le.node) if isinstance(i, ast.If) and "ATTRS[2]" in canon(i.test, lmap)]
-    ok = False
-    if pg:
-        loops = [lp for lp in ast.walk(pg[0]) if isinstance(lp, ast.For) and "ATTRS[2]" in canon(lp.iter, lmap) and isinstance(lp.target, ast.Name)]
-        ok = "isinstance(ENT, ObjectBase)" in canon(pg[0].test, lmap) and any(
-            f"ENT.create_property_group(on_file=True, **{lp.target.id})" in canon(lp, lmap) for lp in loops)
-    chk(ok, "load_entity re-creates every stored property group", "Workspace", "load_entity", "stored property groups are not re-created", le.where,
+    ok, nec = False, frozenset()
+    made = P.call_nodes(lambda c: P.text(c.func) == "self.create_entity")
+    for lp in _loops(le.node):
+        src = P.loop_source(lp)[0]
+        if not (isinstance(src, ast.Call) and isinstance(src.func, ast.Attribute) and attr_name(src) in ("values", "items") and unparse(src.func.value) == "R_attrs[2]"):
+            continue
+        var = lp.target if attr_name(src) == "values" else lp.target.elts[1] if isinstance(lp.target, ast.Tuple) and len(lp.target.elts) == 2 else None
+        if not isinstance(var, ast.Name):
+            continue
+        tg = P.call_nodes(lambda c: P.text(c.func) == "R_ent.create_property_group" and kw(c, "on_file") is not None and _is_true(P.X(kw(c, "on_file")))
+                          and [P.text(u) for u in _unpacked(c)] == [var.id], within=lp)
+        if not tg or not made:
+            continue
+        head, nxt, body = P.loop_nodes(lp)
+        some = P.conj("len(R_attrs[2]) > 0")
+        want = P.conj("isinstance(R_ent, ObjectBase)")
+        nec = P.necessary(P.after(made), tg)
+        ok = nec - some == want and P.must(P.after(made), [head], want | some) and P.must(body, tg, want | some, fail=[nxt])
+    chk(ok, f"load_entity re-creates every stored property group of an object (under {show_set(nec)})", "Workspace", "load_entity", "stored property groups are not re-created", le0.where,
         "property groups are lost on re-open")
-    bc = next((d for d in ast.walk(le.node) if isinstance(d, ast.Dict) and all(isinstance(k, ast.Constant) for k in d.keys) and len(d.keys) >= 3), None)
-    kinds = {k.value: unparse(v) for k, v in zip(bc.keys, bc.values)} if bc else {}
-    rc = R.methods["fetch_children"]
-    skip = next((x for x in ast.walk(rc.node) if isinstance(x, ast.Compare) and isinstance(x.ops[0], ast.In) and isinstance(x.comparators[0], ast.List)), None)
-    skipped = {e.value for e in skip.comparators[0].elts} if skip is not None else None
-    ok = skipped == {"Type", "PropertyGroups", "Concatenated Data"}
-    chk(ok, f"H5Reader.fetch_children skips exactly {sorted(skipped) if skipped else skipped}", "H5Reader", "fetch_children", "child containers skipped changed", rc.where,
-        "a child container (Data / Groups / Objects) is no longer listed: those children vanish on re-open")
-    from ..roles import returned_names
+    # the table entity type label -> base class: what the class argument of create_entity is looked up in
+    etype_p = le0.params[2] if len(le0.params) > 2 else "entity_type"
+    bc = next((P.X(c.args[0]).value for c in creates if c.args and isinstance(P.X(c.args[0]), ast.Subscript) and isinstance(P.X(c.args[0]).value, ast.Dict)
+               and unparse(P.X(c.args[0]).slice) == etype_p), None)
+    kinds = {k.value: unparse(v) for k, v in zip(bc.keys, bc.values) if isinstance(k, ast.Constant)} if bc is not None else {}
+
+    rc0, rc = anchor(R, "fetch_children")
     ret_names = returned_names(rc.node)
     asg = next((a for a in ast.walk(rc.node) if isinstance(a, ast.Assign) and isinstance(a.targets[0], ast.Subscript) and unparse(a.targets[0].value) in ret_names), None)
     if asg is None:
         raise AnalysisError("H5Reader.fetch_children: children[...] assignment not found")
+    P = Paths(rc.node)
+    # the loop over the containers that exist under the entity: `for <container name>, <container> in <handle>.items()`
+    loop = next((x for x in _loops(rc.node) if any(a is asg for a in ast.walk(x)) and _pairs_loop(P, x) is not None), None)
+    ok, listed, ctype = False, None, None
+    if loop is not None:
+        ctype, vals, _ = _pairs_loop(P, loop)
+        roles = {ctype: "R_type", **{v: "R_list" for v in vals}}
+        listed = set()
+        universe = ["Data", "Groups", "Objects", "Type", "PropertyGroups", "Concatenated Data"]
+        for name in universe:
+            Q = Paths(rc.node, roles, consts={"R_type": name})
+            head, nxt, body = Q.loop_nodes(loop)
+            st = Q.stmt_nodes(lambda s: s is asg)
+            if Q.reaches(body, st, Q.conj("isinstance(R_list, h5py.Group)")):
+                listed.add(name)
+        ok = listed == {"Data", "Groups", "Objects"}
+        # a literal skip table, when there is one, names exactly the three non-child groups
+        Q = Paths(rc.node, roles)
+        for x in ast.walk(loop):
+            if isinstance(x, ast.Compare) and len(x.ops) == 1 and isinstance(x.ops[0], (ast.In, ast.NotIn)) and Q.text(x.left) == "R_type":
+                mem = Q._literal_members(Q.X(x.comparators[0]))
+                if mem is not None:
+                    ok = ok and set(mem) == {"Type", "PropertyGroups", "Concatenated Data"}
+    chk(ok, f"H5Reader.fetch_children lists exactly the child containers {sorted(listed) if listed is not None else listed}", "H5Reader", "fetch_children", "child containers skipped changed", rc0.where,
+        "a child container (Data / Groups / Objects) is no longer listed: those children vanish on re-open")
+    P = Paths(rc.node)
     for cont, want in (("Data", "Data"), ("Groups", "Group"), ("Objects", "ObjectBase")):
-        got = _fold_str(asg.value, cont)
+        got = _fold_str(P.X(asg.value), cont, ctype)
         ok = got in kinds and kinds.get(got) == want
         chk(ok, f"H5Reader.fetch_children maps container {cont!r} to kind {got!r} -> load_entity class {kinds.get(got)}", "H5Reader", "fetch_children",
-            f"container {cont!r} maps to kind {got!r} ({kinds.get(got)})", rc.where, f"children found under {cont} are loaded as the wrong kind or not at all")
+            f"container {cont!r} maps to kind {got!r} ({kinds.get(got)})", rc0.where, f"children found under {cont} are loaded as the wrong kind or not at all")
     return res
 
 
